@@ -569,10 +569,21 @@ def gen_shared():
 
 # ------------------------------------------------------------------------------------------
 # C15 (and C08): exit paths -- which statements run, in which order, on every way out of a flow's task.
-# Every function below is cut into its top-level statements; EVERY statement must be recognised by an anchored
-# regular expression (on the comment-free, whitespace-normalised text) and is translated into one `xstep`; a
-# statement that is not recognised raises (tag [ExitPaths]); a statement that is removed or moved yields a
-# different step list, and the theorems of Proofs/ExitPathFacts.v are about exactly these lists.
+# Every function below is cut into its top-level statements (comment-free, whitespace- and rustfmt-wrapping-
+# normalised).  A statement is either
+#   * recognised by an anchored template and translated into one `xstep` (a removed or moved one therefore yields a
+#     different step list, and the theorems of Proofs/ExitPathFacts.v are about exactly these lists), or
+#   * a recognised two-way / n-way branch (`if let`, `if`, `match` are one shape; arm order is irrelevant; a named
+#     local that only carries the scrutinee is put back in place), which splits the path table, or
+#   * inert -- no `?`, no .await, no break / continue / return, no loop, no spawn / select! / join!, no unwrap / expect /
+#     panic-family macro, no drop / forget, no mention of a tracked object (log macros included) -- and skipped, or
+#   * refused: AnchorMissing, tag [ExitPaths].
+# Identifiers are matched by ROLE (bound where the source binds them, required where it uses them), not by name.
+# Deliberately strict: ownership in signatures (by value / &mut), the argument data flow of every call, the inner
+# shape of the first send and of the two pump definitions (what Ok / Err are mapped to), try_join! / join! / select!,
+# the pattern form of the client's transport match, and everything that awaits, propagates or can panic.
+# Not part of a table: log lines, the order in which the lazy adaptors / pump futures are defined and named in the
+# join macro (listed in a fixed order), the order of match arms with disjoint patterns.
 def _strip_comments(t):
     out, i, n = [], 0, len(t)
     while i < n:
@@ -741,17 +752,182 @@ def _block_inner(expr):
     return expr[1:-1].strip() if expr.startswith("{") and expr.endswith("}") else expr
 
 
-_EP_LOG = (r"(error|info|debug|warn|trace)!\(.*\)[;,]?", ["Log"], False)
-_EP_UNIT = (r"\(\)[;,]?", [], False)
+# --- exit-path recogniser engine -----------------------------------------------------------
+# A recogniser is a regular expression TEMPLATE over one tidied statement (or scrutinee / arm pattern):
+#   (?P<role>\w+)   binds the identifier the source uses for a role (a parameter, a `let`, a pattern variable)
+#   <<role>>        must be exactly the identifier bound to that role earlier (data flow, whatever it is called)
+# so renaming a local is invisible, while passing a different object is not.
+def _ep_tidy(t):
+    """_norm + what rustfmt changes when it re-wraps a line: spaces inside brackets, trailing commas, method chains"""
+    t = _norm(t)
+    out, i = [], 0
+    while i < len(t):
+        j = _skip_literal(t, i)
+        if j != i:
+            out.append(t[i:j])
+            i = j
+            continue
+        out.append(t[i])
+        i += 1
+    # literals are kept as opaque chunks; everything else is rewritten chunk-wise
+    res = []
+    code = []
+    for ch in out:
+        if len(ch) > 1 or ch in "\"'":
+            if code:
+                res.append(_ep_tidy_code("".join(code)))
+                code = []
+            res.append(ch)
+        else:
+            code.append(ch)
+    if code:
+        res.append(_ep_tidy_code("".join(code)))
+    s = "".join(res)
+    # the rewrites below can meet at a literal boundary: `( "..."` / `"...", )`
+    s = re.sub(r"([(\[]) (?=\")", r"\1", s)
+    s = re.sub(r"(?<=\"),? (?=[)\]])", "", s)
+    return s.strip()
 
 
-def _paths(block, rec, what):
+def _ep_tidy_code(c):
+    c = re.sub(r"([(\[]) ", r"\1", c)
+    c = re.sub(r",? ([)\]])", r"\1", c)
+    c = re.sub(r", \}", " }", c)
+    c = re.sub(r" \.(?=[A-Za-z_])", ".", c)
+    c = re.sub(r" \?", "?", c)
+    return c
+
+
+def _ep_code_only(st):
+    """the statement with string / char literals blanked"""
+    out, i = [], 0
+    while i < len(st):
+        j = _skip_literal(st, i)
+        if j != i:
+            out.append('""')
+            i = j
+        else:
+            out.append(st[i])
+            i += 1
+    return "".join(out)
+
+
+_EP_CONTROL = re.compile(r"\?|\.await\b|\b(?:break|continue|return|loop|while|for|spawn|spawn_blocking|spawn_local|drop|forget|abort|exit)\b"
+                         r"|\b(?:select|join|try_join|panic|unreachable|todo|unimplemented|bail|ensure|assert|assert_eq|assert_ne|debug_assert|debug_assert_eq|debug_assert_ne)!"
+                         r"|\.(?:unwrap|expect|unwrap_err|expect_err|unwrap_unchecked)\(")
+_EP_LOG_RX = re.compile(r"(?:log::)?(?:error|info|debug|warn|trace)!\(.*\)[;,]?")
+_EP_LOG_BAD = re.compile(r"\?|\.await\b|\.(?:unwrap|expect)\(")
+
+
+def _ep_is_log(st):
+    """a log macro whose arguments neither await, nor propagate, nor unwrap (`.unwrap_err()` is tolerated here only:
+    the one use in the source sits in the else-branch of `if let Ok(..) = handshake`)"""
+    return bool(_EP_LOG_RX.fullmatch(st)) and not _EP_LOG_BAD.search(_ep_code_only(st))
+
+
+def _ep_is_inert(st, env, resources):
+    """a statement that cannot change how the function is left nor what happens to a tracked object: no `?`, no
+    .await, no break / continue / return, no loop, no spawn / select! / join!, no unwrap / expect / panic-family macro,
+    no drop / forget, and no mention of an identifier bound to a tracked resource"""
+    code = _ep_code_only(st)
+    if _EP_CONTROL.search(code):
+        return False
+    names = {env[r] for r in resources if r in env}
+    return not any(re.search(r"\b%s\b" % re.escape(nm), code) for nm in names)
+
+
+def _ep_subst(tmpl, env):
+    """template -> regex (None when it uses a role that is not bound yet)"""
+    missing = []
+
+    def rep(m):
+        if m.group(1) not in env:
+            missing.append(m.group(1))
+            return ""
+        return re.escape(env[m.group(1)])
+    rx = re.sub(r"<<(\w+)>>", rep, tmpl)
+    return None if missing else rx
+
+
+def _ep_match(tmpl, text, env):
+    rx = _ep_subst(tmpl, env)
+    return re.fullmatch(rx, text) if rx is not None else None
+
+
+def _ep_bind(env, m):
+    env.update({k: v for k, v in m.groupdict().items() if v is not None and not k.startswith("_")})
+
+
+def _ep_stmts(block, what):
+    """top-level statements; a named local that is only the scrutinee of the next statement is put back in place:
+    `let X = E; match X {..}` / `if let P = X {..}` / `if X {..}`  ==  `match E {..}` / `if let P = E {..}` / `if E {..}`"""
+    sts = _stmts(block, what)
+    out, i = [], 0
+    while i < len(sts):
+        m = re.fullmatch(r"let (\w+) = (.+);", sts[i])
+        if m and i + 1 < len(sts):
+            x, e, nxt = m.group(1), m.group(2), sts[i + 1]
+            for head in (r"match %s \{" % x, r"if let (?:[^={}]|=(?!=))+ = %s \{" % x, r"if %s \{" % x):
+                mh = re.match(head, nxt)
+                if mh:
+                    k = mh.end() - 2 - len(x)
+                    out.append(nxt[:k] + e + nxt[k + len(x):])
+                    i += 2
+                    break
+            else:
+                out.append(sts[i])
+                i += 1
+            continue
+        out.append(sts[i])
+        i += 1
+    return out
+
+
+_EP_COMPLEMENT = [(r"Ok\(.*\)", "Err(_)"), (r"Err\(.*\)", "Ok(_)"), (r"Some\(.*\)", "None"), (r"None", "Some(_)")]
+
+
+def _ep_branch(st, what):
+    """`if` / `if let` / `match` as (scrutinee, [(pattern, body)]); None for any other statement.
+    `if let P = E {A} else {B}` is `match E { P => A, <the other variant> => B }`; `if C {A} else {B}` is
+    `match C { true => A, false => B }`"""
+    if st.startswith("match "):
+        k = _first_open(st, 6, "{", what)
+        e = _close_of(st, k, what)
+        if st[e + 1:].strip() not in ("", ";", ","):
+            raise AnchorMissing("%s: text after a match: %r" % (what, st[e + 1:][:60]))
+        return st[6:k].strip(), [(p, _block_inner(x)) for (p, x) in _arms(st[k + 1:e], what)]
+    if st.startswith("if "):
+        k = _first_open(st, 3, "{", what)
+        cond = st[3:k].strip()
+        e = _close_of(st, k, what)
+        then_b, rest = st[k + 1:e].strip(), st[e + 1:].strip()
+        if rest.startswith("else"):
+            rest = rest[4:].strip()
+            else_b = _block_inner(rest) if rest.startswith("{") and _close_of(rest, 0, what) == len(rest) - 1 else rest
+        elif rest in ("", ";"):
+            else_b = ""
+        else:
+            raise AnchorMissing("%s: text after an if block: %r" % (what, rest[:60]))
+        m = re.fullmatch(r"let (.+?) = (.+)", cond)
+        if m:
+            other = [c for (rx, c) in _EP_COMPLEMENT if re.fullmatch(rx, m.group(1).strip())]
+            if not other:
+                raise AnchorMissing("%s: `if let %s`: only Ok / Err / Some / None patterns are understood" % (what, m.group(1)))
+            return m.group(2).strip(), [(m.group(1).strip(), then_b), (other[0], else_b)]
+        if cond.startswith("!"):
+            return cond[1:].strip(), [("false", then_b), ("true", else_b)]
+        return cond, [("true", then_b), ("false", else_b)]
+    return None
+
+
+def _ep_paths(block, rec, env, what):
     """all control-flow paths of a block: [(outcomes, steps, returned)].
-    rec = {"simple": [(regex, steps, returns)], "if": [(cond_regex, then_outcome, else_outcome)],
-           "match": [(scrutinee_regex, steps_before, [(pattern_regex, outcome)])]}"""
+    rec = {"simple": [(template, steps | function of the match, returns)],
+           "branch": [(scrutinee template, steps before the branch, [(pattern template, outcome)])],
+           "resources": roles whose identifiers are tracked objects}"""
     alts = [([], [], False)]
-    for st in _stmts(block, what):
-        sub = _stmt_paths(st, rec, what)
+    for st in _ep_stmts(block, what):
+        sub = _ep_stmt_paths(st, rec, env, what)
         new = []
         for (o, s, r) in alts:
             if r:
@@ -762,54 +938,71 @@ def _paths(block, rec, what):
     return alts
 
 
-def _stmt_paths(st, rec, what):
-    hits = [(steps, ret) for (rx, steps, ret) in rec.get("simple", []) if re.fullmatch(rx, st)]
-    if len(hits) == 1:
-        return [([], list(hits[0][0]), hits[0][1])]
+def _ep_stmt_paths(st, rec, env, what):
+    hits = []
+    for (tmpl, steps, ret) in rec.get("simple", []):
+        m = _ep_match(tmpl, st, env)
+        if m:
+            hits.append((m, steps, ret))
     if len(hits) > 1:
         raise AnchorMissing("%s: statement matches several recognisers: %r" % (what, st))
-    if st.startswith("if "):
-        k = _first_open(st, 3, "{", what)
-        cond = st[3:k].strip()
-        e = _close_of(st, k, what)
-        then_b, rest = st[k + 1:e], st[e + 1:].strip()
-        if rest.startswith("else"):
-            rest = rest[4:].strip()
-            else_b = _block_inner(rest) if rest.startswith("{") and _close_of(rest, 0, what) == len(rest) - 1 else rest
-        elif rest in ("", ";"):
-            else_b = ""
-        else:
-            raise AnchorMissing("%s: text after an if block: %r" % (what, rest[:60]))
-        for (rx, o_then, o_else) in rec.get("if", []):
-            if re.fullmatch(rx, cond):
-                return ([([o_then] + o, s, r) for (o, s, r) in _paths(then_b, rec, what)] +
-                        [([o_else] + o, s, r) for (o, s, r) in _paths(else_b, rec, what)])
-        raise AnchorMissing("%s: unrecognised condition %r" % (what, cond))
-    if st.startswith("match "):
-        k = _first_open(st, 6, "{", what)
-        scrut = st[6:k].strip()
-        e = _close_of(st, k, what)
-        if st[e + 1:].strip() not in ("", ";", ","):
-            raise AnchorMissing("%s: text after a match: %r" % (what, st[e + 1:][:60]))
-        for (rx, before, pats) in rec.get("match", []):
-            if re.fullmatch(rx, scrut):
-                out = []
-                for (pat, expr) in _arms(st[k + 1:e], what):
-                    oc = [o for (prx, o) in pats if re.fullmatch(prx, pat)]
-                    if len(oc) != 1:
-                        raise AnchorMissing("%s: unrecognised arm pattern %r of `match %s`" % (what, pat, scrut))
-                    out += [([oc[0]] + o, list(before) + s, r) for (o, s, r) in _paths(_block_inner(expr), rec, what)]
-                return out
-        raise AnchorMissing("%s: unrecognised match scrutinee %r" % (what, scrut))
-    raise AnchorMissing("%s: unrecognised statement %r" % (what, st[:160]))
+    if hits:
+        m, steps, ret = hits[0]
+        _ep_bind(env, m)
+        return [([], list(steps(m) if callable(steps) else steps), ret)]
+    br = _ep_branch(st, what)
+    if br:
+        scrut, arms = br
+        for (tmpl, before, pats) in rec.get("branch", []):
+            m = _ep_match(tmpl, scrut, env)
+            if not m:
+                continue
+            env_b = dict(env)
+            _ep_bind(env_b, m)
+            chosen = {}          # outcome -> (arm environment, body)
+            for idx, (pat, body) in enumerate(arms):
+                if re.fullmatch(r"_|[a-z_]\w*", pat) and idx == len(arms) - 1 and pat not in ("true", "false"):
+                    for (_ptmpl, oc) in pats:      # a final catch-all arm stands for every variant not named before it
+                        chosen.setdefault(oc, (dict(env_b), body))
+                    continue
+                got = [(oc, pm) for (ptmpl, oc) in pats for pm in [_ep_match(ptmpl, pat, env_b)] if pm]
+                if len(got) != 1 or got[0][0] in chosen:
+                    raise AnchorMissing("%s: unrecognised arm pattern %r of `match %s`" % (what, pat, scrut))
+                env_a = dict(env_b)
+                _ep_bind(env_a, got[0][1])
+                chosen[got[0][0]] = (env_a, body)
+            out = []
+            for (_ptmpl, oc) in pats:              # rows in the recogniser's order, whatever the order of the arms
+                if oc not in chosen:
+                    raise AnchorMissing("%s: `match %s` has no arm for %s" % (what, scrut, oc))
+                env_a, body = chosen[oc]
+                out += [([oc] + o, list(before) + s, r) for (o, s, r) in _ep_paths(body, rec, env_a, what)]
+            return out
+    if re.fullmatch(r"\(\)[;,]?", st) or _ep_is_log(st) or _ep_is_inert(st, env, rec.get("resources", ())):
+        return [([], [], False)]
+    raise AnchorMissing("%s: unrecognised statement %r" % (what, st[:200]))
 
 
-def _flat(block, simple, what):
-    """a block without branches: one step list"""
-    ps = _paths(block, {"simple": simple}, what)
+def _ep_flat(block, simple, env, resources, what):
+    """a block without recognised branches: one step list"""
+    ps = _ep_paths(block, {"simple": simple, "resources": resources}, env, what)
     if len(ps) != 1 or ps[0][0]:
         raise AnchorMissing("%s: expected straight-line code" % what)
     return ps[0][1]
+
+
+def _ep_header(hdr, tmpl, what):
+    m = re.search(tmpl, hdr)
+    if not m:
+        raise AnchorMissing("%s: signature %r is not of the expected form (%s)" % (what, hdr[:160], tmpl))
+    env = {}
+    _ep_bind(env, m)
+    return env
+
+
+def _ep_item(text, header_re, what):
+    hdr, body = _item(text, header_re, what)
+    return _ep_tidy(hdr), _ep_tidy(body)
 
 
 def _spawn_block(body, opener, what):
@@ -821,6 +1014,19 @@ def _spawn_block(body, opener, what):
     if not body[e + 1:].lstrip().startswith(")"):
         raise AnchorMissing("%s: `%s ... }` is not the whole argument of the spawn" % (what, opener))
     return body[k + 1:e].strip()
+
+
+def _ep_canon_pumps(steps, what):
+    """the adaptors and the two pump futures are lazy: the order in which they are DEFINED (and in which the join
+    macro names them) cannot be observed; the table lists them in one fixed order between FirstSend and JoinPumps"""
+    lazy = [s for s in steps if s.startswith(("FilterErrors ", "DefinePump "))]
+    if not lazy:
+        return steps
+    idx = [i for i, s in enumerate(steps) if s in lazy]
+    if idx != list(range(idx[0], idx[0] + len(idx))):
+        raise AnchorMissing("%s: pump definitions are interleaved with other steps" % what)
+    key = lambda s: (0 if s.startswith("FilterErrors") else 1, s.split()[1])
+    return steps[:idx[0]] + sorted(lazy, key=key) + steps[idx[-1] + 1:]
 
 
 def gen_exit_paths():
@@ -843,195 +1049,212 @@ def gen_exit_paths():
         facts[name] = v
         L.append("Definition %s : bool := %s.  (* %s *)" % (name, "true" if v else "false", origin))
 
-    def pump(names):
-        """recogniser of `let NAME = async { match STREAM.forward(SINK).await { Ok(_) => X, Err(e) => Y, } };`"""
+    def pump(specs):
+        """recognisers of `let NAME = async { match STREAM.forward(SINK).await { Ok(_) => X, Err(e) => Y } };`"""
         out = []
-        for (stream_rx, sink_rx, d) in names:
+        for (stream_t, sink_t, d, role) in specs:
             for ok_err in (True, False):
                 for err_err in (True, False):
                     okx = r"Err(?:::<\(\), _>)?\(relay::Result::Close\([^;{}]*\)\)" if ok_err else r"Ok\([^;{}]*\)"
                     erx = r"Err\(relay::Result::Err\([^;{}]*\)\)" if err_err else r"Ok\([^;{}]*\)"
-                    out.append((r"let \w+ = async \{ match %s\.forward\(%s\)\.await \{ Ok\(_\) => %s, Err\(\w+\) => %s,? \} \};" % (stream_rx, sink_rx, okx, erx),
+                    out.append((r"let (?P<%s>\w+) = async \{ match %s\.forward\(%s\)\.await \{ Ok\(_\) => %s, Err\(\w+\) => %s \} \};" % (role, stream_t, sink_t, okx, erx),
                                 ["DefinePump %s %s %s" % (d, "true" if ok_err else "false", "true" if err_err else "false")], False))
         return out
 
-    def join(a, b):
-        return [(r"(?:let \w+ = )?match tokio::try_join!\(%s, %s\) \{ Ok\(_\) => unreachable!\([^;{}]*\), Err\(e\) => e,? \};?" % (a, b), ["JoinPumps TryJoin"], False),
-                (r"(?:let \w+ = )?match tokio::join!\(%s, %s\) \{.*\};?" % (a, b), ["JoinPumps Join"], False),
-                (r"(?:let \w+ = )?tokio::join!\(%s, %s\);?" % (a, b), ["JoinPumps Join"], False),
-                (r"(?:let \w+ = )?tokio::select! \{.*\};?", ["JoinPumps Select"], False)]
+    def join():
+        both = r"(?:<<pAB>>, <<pBA>>|<<pBA>>, <<pAB>>)"
+        return [(r"(?:let (?P<res>\w+) = )?match tokio::try_join!\(%s\) \{ Ok\(_\) => unreachable!\([^;{}]*\), Err\((?P<_e>\w+)\) => (?P=_e) \};?" % both, ["JoinPumps TryJoin"], False),
+                (r"(?:let (?P<res>\w+) = )?match tokio::join!\(%s\) \{.*\};?" % both, ["JoinPumps Join"], False),
+                (r"(?:let (?P<res>\w+) = )?tokio::join!\(%s\);?" % both, ["JoinPumps Join"], False),
+                (r"(?:let (?P<res>\w+) = )?tokio::select! \{.*\};?", ["JoinPumps Select"], False)]
 
     # ---------------- octo-squirrel/src/codec.rs: QuicStream ----------------
     f = "octo-squirrel/src/codec.rs"
     s = src(f)
-    _, impl_body = _item(s, r"\nimpl QuicStream \{", f + ": impl QuicStream")
-    hdr, body = _item(impl_body, r"pub async fn close\(", f + ": QuicStream::close")
+    _, impl_body = _ep_item(s, r"\nimpl QuicStream \{", f + ": impl QuicStream")
+    hdr, body = _ep_item(impl_body, r"pub async fn close\(", f + ": QuicStream::close")
     m = re.fullmatch(r"pub async fn close\((mut self|self|&mut self|&self)\) -> (?:anyhow::)?Result<\(\)>", hdr)
     if not m:
         raise AnchorMissing(f + ": signature of QuicStream::close: %r" % hdr)
     emit_bool("quic_close_consumes_self", m.group(1) in ("mut self", "self"), f + " close(%s): the stream is dropped when close returns" % m.group(1))
-    emit_steps("quic_close_steps", _flat(body, [
-        (r"(?:let _ = )?self\.send\.finish\(\)(?:\.ok\(\)|\?)?;", ["Finish"], False),
-        (r"match self\.send\.stopped\(\)\.await \{ Ok\(_\) => Ok\(\(\)\), Err\(\w+\) => (?:bail!\(\w+\)|Err\([^;{}]*\)),? \}", ["AwaitStopped"], False),
+    self_env = {"self": "self"}
+    emit_steps("quic_close_steps", _ep_flat(body, [
+        (r"(?:let _ = )?self\.send\.finish\(\)(?:\.ok\(\))?;", ["Finish"], False),
+        (r"match self\.send\.stopped\(\)\.await \{ Ok\(_\) => Ok\(\(\)\), Err\((?P<_e>\w+)\) => (?:bail!\((?P=_e)\)|Err\([^;{}]*\)) \}", ["AwaitStopped"], True),
         (r"(?:let _ = )?self\.send\.stopped\(\)\.await(?:\.ok\(\)|\?|\.map_err\([^;{}]*\)\?)?;", ["AwaitStopped"], False),
         (r"Ok\(\(\)\)", ["ReturnOk"], True),
-    ], f + ": QuicStream::close"), f + " QuicStream::close")
-    _, impl_body = _item(s, r"\nimpl AsyncWrite for QuicStream \{", f + ": impl AsyncWrite for QuicStream")
-    _, body = _item(impl_body, r"fn poll_shutdown\(", f + ": QuicStream::poll_shutdown")
-    emit_steps("quic_poll_shutdown_steps", _flat(body, [
-        (r"AsyncWrite::poll_shutdown\(Pin::new\(&mut self\.send\), cx\)", ["ShutdownSend"], False),
-        (r"Pin::new\(&mut self\.send\)\.poll_shutdown\(cx\)", ["ShutdownSend"], False),
+    ], dict(self_env), ["self"], f + ": QuicStream::close"), f + " QuicStream::close")
+    _, impl_body = _ep_item(s, r"\nimpl AsyncWrite for QuicStream \{", f + ": impl AsyncWrite for QuicStream")
+    _, body = _ep_item(impl_body, r"fn poll_shutdown\(", f + ": QuicStream::poll_shutdown")
+    emit_steps("quic_poll_shutdown_steps", _ep_flat(body, [
+        (r"AsyncWrite::poll_shutdown\(Pin::new\(&mut self\.send\), \w+\)", ["ShutdownSend"], False),
+        (r"Pin::new\(&mut self\.send\)\.poll_shutdown\(\w+\)", ["ShutdownSend"], False),
         (r"Poll::Ready\(Ok\(\(\)\)\)", [], False),
-    ], f + ": QuicStream::poll_shutdown"), f + " poll_shutdown (quinn SendStream::poll_shutdown = finish)")
+    ], dict(self_env), ["self"], f + ": QuicStream::poll_shutdown"), f + " poll_shutdown (quinn SendStream::poll_shutdown = finish)")
 
     # ---------------- octo-squirrel-server/src/server/template.rs ----------------
     f = "octo-squirrel-server/src/server/template.rs"
     s = src(f)
-    split_framed = (r"let \(mut inbound_sink, mut inbound_stream\) = codec\.framed\(inbound\)\.split\(\);", ["SplitFramed"], False)
-    call_relay_to = (r"relay_to\(&mut inbound_sink, &mut inbound_stream\)\.await;?", ["CallRelayTo"], False)
-    _, mod_tcp = _item(s, r"pub\(super\) mod tcp \{", f + ": mod tcp")
-    hdr, body = _item(mod_tcp, r"pub async fn relay<", f + ": tcp::relay")
-    if not re.search(r"\(inbound: I, codec: C\)", hdr):
-        raise AnchorMissing(f + ": tcp::relay must take `inbound: I` by value (the connection is dropped when it returns)")
-    emit_steps("server_tcp_relay_steps", _flat(body, [split_framed, call_relay_to], f + ": tcp::relay"), f + " tcp::relay (owns `inbound`)")
-    hdr, body = _item(mod_tcp, r"pub async fn accept_websocket_then_replay<", f + ": tcp::accept_websocket_then_replay")
-    if not re.search(r"\(inbound: I, codec: C\)", hdr):
-        raise AnchorMissing(f + ": accept_websocket_then_replay must take `inbound: I` by value")
-    emit_paths("server_ws_accept_paths", _paths(body, {
-        "simple": [(r"let \(mut inbound_sink, mut inbound_stream\) = WebSocketFramed::new\(inbound, codec\)\.split\(\);", ["SplitWsFramed"], False),
-                   call_relay_to, _EP_LOG, _EP_UNIT],
-        "match": [(r"ServerBuilder::new\(\)\.accept\(inbound\)\.await", [],
-                   [(r"Ok\(\(_, inbound\)\)", "WsAcceptOk"), (r"Err\(\w+\)", "WsAcceptErr")])]},
-        f + ": accept_websocket_then_replay"), f + " tcp::accept_websocket_then_replay (owns `inbound`)")
-    _, mod_quic = _item(s, r"pub\(super\) mod quic \{", f + ": mod quic")
-    hdr, body = _item(mod_quic, r"pub async fn relay<", f + ": quic::relay")
-    if not re.search(r"\(inbound: QuicStream, codec: C\) -> anyhow::Result<\(\)>", hdr):
-        raise AnchorMissing(f + ": quic::relay must take `inbound: QuicStream` by value and return anyhow::Result<()>")
-    emit_steps("server_quic_relay_steps", _flat(body, [
+    split_framed = (r"let \(mut (?P<sink>\w+), mut (?P<stream>\w+)\) = <<codec>>\.framed\(<<inbound>>\)\.split\(\);", ["SplitFramed"], False)
+    call_relay_to = (r"relay_to\(&mut <<sink>>, &mut <<stream>>\)\.await;?", ["CallRelayTo"], False)
+    conn_res = ["inbound", "sink", "stream", "ws", "whole"]
+    _, mod_tcp = _ep_item(s, r"pub\(super\) mod tcp \{", f + ": mod tcp")
+    hdr, body = _ep_item(mod_tcp, r"pub async fn relay<", f + ": tcp::relay")
+    env = _ep_header(hdr, r"\((?P<inbound>\w+): I, (?P<codec>\w+): C\)", f + ": tcp::relay must take the connection by value (it is dropped when relay returns)")
+    emit_steps("server_tcp_relay_steps", _ep_flat(body, [split_framed, call_relay_to], env, conn_res, f + ": tcp::relay"), f + " tcp::relay (owns `inbound`)")
+    hdr, body = _ep_item(mod_tcp, r"pub async fn accept_websocket_then_replay<", f + ": tcp::accept_websocket_then_replay")
+    env = _ep_header(hdr, r"\((?P<inbound>\w+): I, (?P<codec>\w+): C\)", f + ": accept_websocket_then_replay must take the connection by value")
+    emit_paths("server_ws_accept_paths", _ep_paths(body, {
+        "simple": [(r"let \(mut (?P<sink>\w+), mut (?P<stream>\w+)\) = WebSocketFramed::new\(<<ws>>, <<codec>>\)\.split\(\);", ["SplitWsFramed"], False),
+                   call_relay_to],
+        "branch": [(r"ServerBuilder::new\(\)\.accept\(<<inbound>>\)\.await", [],
+                    [(r"Ok\(\(_, (?P<ws>\w+)\)\)", "WsAcceptOk"), (r"Err\(\w+\)", "WsAcceptErr")])],
+        "resources": conn_res}, env, f + ": accept_websocket_then_replay"), f + " tcp::accept_websocket_then_replay (owns `inbound`)")
+    _, mod_quic = _ep_item(s, r"pub\(super\) mod quic \{", f + ": mod quic")
+    hdr, body = _ep_item(mod_quic, r"pub async fn relay<", f + ": quic::relay")
+    env = _ep_header(hdr, r"\((?P<inbound>\w+): QuicStream, (?P<codec>\w+): C\) -> anyhow::Result<\(\)>",
+                     f + ": quic::relay must take the QuicStream by value and return anyhow::Result<()>")
+    emit_steps("server_quic_relay_steps", _ep_flat(body, [
         split_framed, call_relay_to,
-        (r"let inbound = inbound_sink\.reunite\(inbound_stream\)\.map\(Framed::into_inner\)\.map_err\(\|e\| anyhow!\(e\)\)\?;", ["Reunite"], False),
-        (r"inbound\.close\(\)\.await", ["CloseStream"], True),
-        (r"(?:let _ = )?inbound\.close\(\)\.await(?:\?|\.ok\(\))?;", ["CloseStream"], False),
+        (r"let (?P<whole>\w+) = <<sink>>\.reunite\(<<stream>>\)\.map\(Framed::into_inner\)\.map_err\(\|(?P<_e>\w+)\| anyhow!\((?P=_e)\)\)\?;", ["Reunite"], False),
+        (r"<<whole>>\.close\(\)\.await", ["CloseStream"], True),
+        (r"(?:let _ = )?<<whole>>\.close\(\)\.await(?:\?|\.ok\(\))?;", ["CloseStream"], False),
         (r"return [^;]*;", ["ReturnEarly"], True),
-        (r"Ok\(\(\)\)", ["ReturnOk"], True), _EP_LOG,
-    ], f + ": quic::relay"), f + " quic::relay (owns `inbound`; `?` on reunite cannot fail: the halves are a pair)")
+        (r"Ok\(\(\)\)", ["ReturnOk"], True),
+    ], env, conn_res, f + ": quic::relay"), f + " quic::relay (owns `inbound`; `?` on reunite cannot fail: the halves are a pair)")
 
-    _, body = _item(s, r"\nasync fn relay_to<", f + ": relay_to")
-    first_pats = [(r"Some\(Ok\(InboundIn::ConnectTcp\(\w+, \w+\)\)\)", "FirstIs ConnectTcp"),
-                  (r"Some\(Ok\(InboundIn::RelayUdp\(\w+, \w+\)\)\)", "FirstIs RelayUdp"),
+    hdr, body = _ep_item(s, r"\nasync fn relay_to<", f + ": relay_to")
+    env = _ep_header(hdr, r"\((?P<sink>\w+): &mut Si, (?P<stream>\w+): &mut St\)", f + ": relay_to borrows the two inbound halves")
+    first_pats = [(r"Some\(Ok\(InboundIn::ConnectTcp\((?P<msg>\w+), (?P<addr>\w+)\)\)\)", "FirstIs ConnectTcp"),
+                  (r"Some\(Ok\(InboundIn::RelayUdp\((?P<msg>\w+), (?P<addr>\w+)\)\)\)", "FirstIs RelayUdp"),
                   (r"Some\(Ok\(InboundIn::RelayTcp\(\w+\)\)\)", "FirstIs RelayTcp"),
                   (r"Some\(Err\(\w+\)\)", "FirstIs DecodeErr"),
                   (r"None", "FirstIs Eof")]
-    paths = _paths(body, {
-        "simple": [(r"(?:let \w+ = )?relay_tcp_bidirectional\(inbound_sink, inbound_stream, outbound, InboundIn::RelayTcp\(\w+\)\)\.await;?", ["RelayTcpBidi"], False),
-                   (r"(?:let \w+ = )?relay_udp_bidirectional\(inbound_sink, inbound_stream, outbound, InboundIn::RelayUdp\(\w+, \w+\)\)\.await;?", ["RelayUdpBidi"], False),
-                   (r"return;?,?", ["ReturnEarly"], True), _EP_LOG, _EP_UNIT],
-        "if": [(r"let Ok\(\w+\) = \w+\.to_socket_addr\(\)", "ResolveOk", "ResolveErr")],
-        "match": [(r"inbound_stream\.next\(\)\.await", [], first_pats),
-                  (r"TcpStream::connect\(\w+\)\.await", [], [(r"Err\(\w+\)", "ConnectErr"), (r"Ok\(outbound\)", "ConnectOk")]),
-                  (r"UdpSocket::bind\([^;{}]*\)\.await", [], [(r"Err\(\w+\)", "BindErr"), (r"Ok\(outbound\)", "BindOk")])]},
-        f + ": relay_to")
+    paths = _ep_paths(body, {
+        "simple": [(r"(?:let \w+ = )?relay_tcp_bidirectional\(<<sink>>, <<stream>>, <<outbound>>, InboundIn::RelayTcp\(<<msg>>\)\)\.await;?", ["RelayTcpBidi"], False),
+                   (r"(?:let \w+ = )?relay_udp_bidirectional\(<<sink>>, <<stream>>, <<outbound>>, InboundIn::RelayUdp\(<<msg>>, <<addr>>\)\)\.await;?", ["RelayUdpBidi"], False),
+                   (r"return;?,?", ["ReturnEarly"], True)],
+        "branch": [(r"<<stream>>\.next\(\)\.await", [], first_pats),
+                   (r"<<addr>>\.to_socket_addr\(\)", [], [(r"Ok\((?P<resolved>\w+)\)", "ResolveOk"), (r"Err\(\w+\)", "ResolveErr")]),
+                   (r"TcpStream::connect\(<<resolved>>\)\.await", [], [(r"Err\(\w+\)", "ConnectErr"), (r"Ok\((?P<outbound>\w+)\)", "ConnectOk")]),
+                   (r"UdpSocket::bind\([^;{}]*\)\.await", [], [(r"Err\(\w+\)", "BindErr"), (r"Ok\((?P<outbound>\w+)\)", "BindOk")])],
+        "resources": ["sink", "stream", "outbound"]}, env, f + ": relay_to")
     if not all(o and o[0].startswith("FirstIs ") for (o, _s, _r) in paths):
-        raise AnchorMissing(f + ": relay_to must start with `match inbound_stream.next().await`")
+        raise AnchorMissing(f + ": relay_to must start with `match <inbound stream>.next().await`")
     emit_paths("server_relay_to_paths", paths, f + " relay_to: one row per control-flow path")
 
-    for nm, fn, split_rx in [("tcp", "relay_tcp_bidirectional", r"let \(outbound_sink, outbound_stream\) = BytesCodec\.framed\(outbound\)\.split\(\);"),
-                             ("udp", "relay_udp_bidirectional", r"let \(outbound_sink, outbound_stream\) = UdpFramed::new\(outbound, DatagramCodec::default\(\)\)\.split\(\);")]:
-        hdr, body = _item(s, r"\nasync fn %s<" % fn, f + ": " + fn)
-        if not re.search(r"outbound: (TcpStream|UdpSocket), first: InboundIn\) -> relay::Result", hdr):
-            raise AnchorMissing(f + ": %s must take the outbound socket by value (it is dropped when the relay returns)" % fn)
-        emit_steps("server_relay_%s_bidi_steps" % nm, _flat(body, [
-            (split_rx, ["SplitOutbound"], False),
-            (r"relay_bidirectional\(inbound_sink, inbound_stream, outbound_sink, outbound_stream, first\)\.await", ["CallRelayBidi"], True),
-        ], f + ": " + fn), f + " " + fn + " (owns `outbound`, borrows the inbound halves)")
+    for nm, fn, sig, split_t in [
+            ("tcp", "relay_tcp_bidirectional", r"\((?P<sink>\w+): &mut Si, (?P<stream>\w+): &mut St, (?P<outbound>\w+): TcpStream, (?P<first>\w+): InboundIn\) -> relay::Result",
+             r"let \((?P<osink>\w+), (?P<ostream>\w+)\) = BytesCodec\.framed\(<<outbound>>\)\.split\(\);"),
+            ("udp", "relay_udp_bidirectional", r"\((?P<sink>\w+): Si, (?P<stream>\w+): St, (?P<outbound>\w+): UdpSocket, (?P<first>\w+): InboundIn\) -> relay::Result",
+             r"let \((?P<osink>\w+), (?P<ostream>\w+)\) = UdpFramed::new\(<<outbound>>, DatagramCodec::default\(\)\)\.split\(\);")]:
+        hdr, body = _ep_item(s, r"\nasync fn %s<" % fn, f + ": " + fn)
+        env = _ep_header(hdr, sig, f + ": %s must take the outbound socket by value (it is dropped when the relay returns)" % fn)
+        emit_steps("server_relay_%s_bidi_steps" % nm, _ep_flat(body, [
+            (split_t, ["SplitOutbound"], False),
+            (r"relay_bidirectional\(<<sink>>, <<stream>>, <<osink>>, <<ostream>>, <<first>>\)\.await", ["CallRelayBidi"], True),
+        ], env, ["sink", "stream", "outbound", "osink", "ostream"], f + ": " + fn), f + " " + fn + " (owns `outbound`, borrows the inbound halves)")
 
-    _, body = _item(s, r"\nasync fn relay_bidirectional<", f + ": relay_bidirectional")
-    emit_steps("server_bidi_steps", _flat(body, [
-        (r"match first\.try_into\(\) \{ Ok\(first\) => match outbound_sink\.send\(first\)\.await \{ Ok\(_\) => \(\), Err\(e\) => return relay::Result::Err\([^;{}]*\), \}, "
-         r"Err\(e\) => return relay::Result::Err\([^;{}]*\), \};", ["FirstSend"], False),
-        (r"let outbound_stream = outbound_stream\.filter_map\(\|r\| future::ready\(r\.ok\(\)\)\)\.map\(O::into\)\.map\(Ok\);", ["FilterErrors PumpBA"], False),
-        (r"let inbound_stream = inbound_stream\.filter_map\(\|r\| future::ready\(r\.ok\(\)\)\)\.map\(InboundIn::try_into\);", ["FilterErrors PumpAB"], False),
-    ] + pump([("outbound_stream", "inbound_sink", "PumpBA"), ("inbound_stream", "outbound_sink", "PumpAB")]) + join("p_s_c", "c_s_p"),
-        f + ": relay_bidirectional"), f + " relay_bidirectional")
+    hdr, body = _ep_item(s, r"\nasync fn relay_bidirectional<", f + ": relay_bidirectional")
+    env = _ep_header(hdr, r"\((?P<isink>\w+): ISink, (?P<istream>\w+): IStream, mut (?P<osink>\w+): OSink, (?P<ostream>\w+): OStream, (?P<first>\w+): InboundIn\) -> relay::Result",
+                     f + ": relay_bidirectional")
+    emit_steps("server_bidi_steps", _ep_canon_pumps(_ep_flat(body, [
+        (r"match <<first>>\.try_into\(\) \{ Ok\((?P<_f>\w+)\) => match <<osink>>\.send\((?P=_f)\)\.await \{ Ok\(_\) => \(\), Err\(\w+\) => return relay::Result::Err\([^;{}]*\) \}, "
+         r"Err\(\w+\) => return relay::Result::Err\([^;{}]*\) \};", ["FirstSend"], False),
+        (r"let (?P<ostream>\w+) = <<ostream>>\.filter_map\(\|(?P<_r>\w+)\| future::ready\((?P=_r)\.ok\(\)\)\)\.map\(O::into\)\.map\(Ok\);", ["FilterErrors PumpBA"], False),
+        (r"let (?P<istream>\w+) = <<istream>>\.filter_map\(\|(?P<_r>\w+)\| future::ready\((?P=_r)\.ok\(\)\)\)\.map\(InboundIn::try_into\);", ["FilterErrors PumpAB"], False),
+    ] + pump([("<<ostream>>", "<<isink>>", "PumpBA", "pBA"), ("<<istream>>", "<<osink>>", "PumpAB", "pAB")]) + join(),
+        env, ["isink", "istream", "osink", "ostream", "first", "pAB", "pBA"], f + ": relay_bidirectional"), f + ": relay_bidirectional"), f + " relay_bidirectional")
 
     # ---------------- octo-squirrel-server/src/server.rs: the per-connection tasks ----------------
     f = "octo-squirrel-server/src/server.rs"
     s = src(f)
-    _, body = _item(s, r"\nasync fn startup_tcp<", f + ": startup_tcp")
+    _, body = _ep_item(s, r"\nasync fn startup_tcp<", f + ": startup_tcp")
     fn_step = {"accept_websocket_then_replay": "CallAcceptWs", "relay": "CallTcpRelay"}
-    m = re.search(r"if ws_config\.is_some\(\) \{ tokio::spawn\(template::tcp::(\w+)\(inbound, codec\)\); \} else \{ tokio::spawn\(template::tcp::(\w+)\(inbound, codec\)\); \}", body)
-    if not m or m.group(1) not in fn_step or m.group(2) not in fn_step:
-        raise AnchorMissing(f + ": startup_tcp plain arm: `if ws_config.is_some() { tokio::spawn(template::tcp::X(inbound, codec)); } else { .. }`")
-    emit_paths("server_plain_task_paths", [(["UseWs"], [fn_step[m.group(1)]], False), (["NoWs"], [fn_step[m.group(2)]], False)], f + " startup_tcp (None, ws) arm: the spawned future IS the call")
-    if not re.search(r"let use_ws = ws_config\.is_some\(\);", body):
-        raise AnchorMissing(f + ": startup_tcp tls arm: `let use_ws = ws_config.is_some();`")
-    emit_paths("server_tls_task_paths", _paths(_spawn_block(body, "tokio::spawn(async move {", f + ": startup_tcp tls task"), {
-        "simple": [(r"template::tcp::accept_websocket_then_replay\(inbound, codec\)\.await;?", ["CallAcceptWs"], False),
-                   (r"template::tcp::relay\(inbound, codec\)\.await;?", ["CallTcpRelay"], False), _EP_LOG, _EP_UNIT],
-        "if": [(r"use_ws", "UseWs", "NoWs")],
-        "match": [(r"tls_acceptor\.accept\(inbound\)\.await", [], [(r"Ok\(inbound\)", "TlsAcceptOk"), (r"Err\(\w+\)", "TlsAcceptErr")])]},
+    m = re.search(r"\(None, (?P<ws>\w+)\) => loop \{.*?if (?P=ws)\.is_some\(\) \{ tokio::spawn\(template::tcp::(?P<a>\w+)\((?P<i>\w+), (?P<c>\w+)\)\); \} else \{ tokio::spawn\(template::tcp::(?P<b>\w+)\((?P=i), (?P=c)\)\); \}", body)
+    if not m or m.group("a") not in fn_step or m.group("b") not in fn_step:
+        raise AnchorMissing(f + ": startup_tcp plain arm: `(None, ws) => loop { .. if ws.is_some() { tokio::spawn(template::tcp::X(inbound, codec)); } else { .. } }`")
+    emit_paths("server_plain_task_paths", [(["UseWs"], [fn_step[m.group("a")]], False), (["NoWs"], [fn_step[m.group("b")]], False)], f + " startup_tcp (None, ws) arm: the spawned future IS the call")
+    m = re.search(r"\(Some\(\w+\), (?P<ws>\w+)\) => \{.*?let (?P<usews>\w+) = (?P=ws)\.is_some\(\);", body)
+    if not m:
+        raise AnchorMissing(f + ": startup_tcp tls arm: `(Some(ssl), ws) => { .. let use_ws = ws.is_some();`")
+    emit_paths("server_tls_task_paths", _ep_paths(_spawn_block(body, "tokio::spawn(async move {", f + ": startup_tcp tls task"), {
+        "simple": [(r"template::tcp::accept_websocket_then_replay\(<<tls>>, <<codec>>\)\.await;?", ["CallAcceptWs"], False),
+                   (r"template::tcp::relay\(<<tls>>, <<codec>>\)\.await;?", ["CallTcpRelay"], False)],
+        "branch": [(r"<<usews>>", [], [(r"true", "UseWs"), (r"false", "NoWs")]),
+                   (r"\w+\.accept\((?P<inbound>\w+)\)\.await", [], [(r"Ok\((?P<tls>\w+)\)", "TlsAcceptOk"), (r"Err\(\w+\)", "TlsAcceptErr")])],
+        "resources": ["inbound", "tls"]}, {"usews": m.group("usews"), "codec": "codec"},
         f + ": startup_tcp tls task"), f + " startup_tcp (Some(ssl), ws) arm: the spawned block")
-    _, body = _item(s, r"\nasync fn startup_quic<", f + ": startup_quic")
-    emit_steps("server_quic_task_steps", _flat(_spawn_block(body, "tokio::spawn(async {", f + ": startup_quic task"), [
-        (r"let connection = incoming\.await\?;", ["AwaitIncoming"], False),
-        (r"let \(send, recv\) = connection\.accept_bi\(\)\.await\?;", ["AcceptBi"], False),
-        (r"template::quic::relay\(QuicStream::new\(send, recv\), codec\)\.await\?;", ["CallQuicRelay"], False),
+    _, body = _ep_item(s, r"\nasync fn startup_quic<", f + ": startup_quic")
+    m = re.search(r"while let Some\((?P<incoming>\w+)\) = \w+\.accept\(\)\.await \{", body)
+    if not m:
+        raise AnchorMissing(f + ": startup_quic: `while let Some(incoming) = endpoint.accept().await {`")
+    emit_steps("server_quic_task_steps", _ep_flat(_spawn_block(body, "tokio::spawn(async {", f + ": startup_quic task"), [
+        (r"let (?P<conn>\w+) = <<incoming>>\.await\?;", ["AwaitIncoming"], False),
+        (r"let \((?P<send>\w+), (?P<recv>\w+)\) = <<conn>>\.accept_bi\(\)\.await\?;", ["AcceptBi"], False),
+        (r"template::quic::relay\(QuicStream::new\(<<send>>, <<recv>>\), \w+\)\.await\?;", ["CallQuicRelay"], False),
         (r"Ok::<\(\), anyhow::Error>\(\(\)\)", ["ReturnOk"], True),
-    ], f + ": startup_quic task"), f + " startup_quic: the spawned block (holds `connection` until it ends)")
+    ], {"incoming": m.group("incoming")}, ["incoming", "conn", "send", "recv"], f + ": startup_quic task"),
+        f + " startup_quic: the spawned block (holds `connection` until it ends)")
 
     # ---------------- octo-squirrel-client/src/client/template.rs ----------------
     f = "octo-squirrel-client/src/client/template.rs"
     s = src(f)
-    _, body = _item(s, r"\npub async fn transfer_tcp<", f + ": transfer_tcp")
-    emit_paths("client_task_paths", _paths(_spawn_block(body, "tokio::spawn(async move {", f + ": transfer_tcp task"), {
-        "simple": [(r"let handshake = handshake::get_request_addr\(&mut inbound\)\.await;", ["Handshake"], False), _EP_LOG, _EP_UNIT],
-        "if": [(r"let Ok\(peer_addr\) = handshake", "HandshakeOk", "HandshakeErr")],
-        "match": [(r"try_transfer_tcp\(inbound, &peer_addr, &config, context, new_codec\)\.await", ["CallTryTransfer"],
-                   [(r"Ok\(\w+\)", "TransferOk"), (r"Err\(\w+\)", "TransferErr")])]},
+    _, body = _ep_item(s, r"\npub async fn transfer_tcp<", f + ": transfer_tcp")
+    emit_paths("client_task_paths", _ep_paths(_spawn_block(body, "tokio::spawn(async move {", f + ": transfer_tcp task"), {
+        "branch": [(r"handshake::get_request_addr\(&mut (?P<inbound>\w+)\)\.await", ["Handshake"],
+                    [(r"Ok\((?P<peer>\w+)\)", "HandshakeOk"), (r"Err\(\w+\)", "HandshakeErr")]),
+                   (r"try_transfer_tcp\(<<inbound>>, &<<peer>>, &\w+, \w+, \w+\)\.await", ["CallTryTransfer"],
+                    [(r"Ok\(\w+\)", "TransferOk"), (r"Err\(\w+\)", "TransferErr")])],
+        "resources": ["inbound"]}, {},
         f + ": transfer_tcp task"), f + " transfer_tcp: the spawned block (owns `inbound`, moves it into try_transfer_tcp)")
-    hdr, body = _item(s, r"\npub async fn try_transfer_tcp<", f + ": try_transfer_tcp")
-    if not re.search(r"\(\s*inbound: TcpStream,", hdr):
-        raise AnchorMissing(f + ": try_transfer_tcp must take `inbound: TcpStream` by value")
-    st = _stmts(body, f + ": try_transfer_tcp")
-    m = re.fullmatch(r"Ok\(match \(&config\.ssl, &config\.ws, &config\.quic\) \{(.*)\}\)", st[-1]) if st else None
+    hdr, body = _ep_item(s, r"\npub async fn try_transfer_tcp<", f + ": try_transfer_tcp")
+    env = _ep_header(hdr, r"\((?P<inbound>\w+): TcpStream, (?P<peer>\w+): &Address, (?P<config>\w+): &ServerConfig<SslConfig>, (?P<context>\w+): Context, (?P<newcodec>\w+): NewCodec\)",
+                     f + ": try_transfer_tcp must take the local socket by value")
+    tt_res = ["inbound", "local", "tunnel", "back", "cs"]
+    st = _ep_stmts(body, f + ": try_transfer_tcp")
+    rx = _ep_subst(r"Ok\(match \(&<<config>>\.ssl, &<<config>>\.ws, &<<config>>\.quic\) \{(.*)\}\)", env)
+    m = re.fullmatch(rx, st[-1]) if st else None
     if not m:
         raise AnchorMissing(f + ": try_transfer_tcp must end with `Ok(match (&config.ssl, &config.ws, &config.quic) { .. })`")
-    emit_steps("client_try_transfer_steps", _flat(" ".join(st[:-1]), [
-        (r"let local_client = Framed::new\(inbound, BytesCodec\);", ["FrameLocal"], False),
-        (r"let codec = new_codec\(peer_addr, context\)\?;", ["NewCodec"], False),
-    ], f + ": try_transfer_tcp"), f + " try_transfer_tcp: before the transport match")
+    emit_steps("client_try_transfer_steps", _ep_flat(" ".join(st[:-1]), [
+        (r"let (?P<local>\w+) = Framed::new\(<<inbound>>, BytesCodec\);", ["FrameLocal"], False),
+        (r"let (?P<codec>\w+) = <<newcodec>>\(<<peer>>, <<context>>\)\?;", ["NewCodec"], False),
+    ], env, tt_res, f + ": try_transfer_tcp"), f + " try_transfer_tcp: before the transport match")
     tunnel = {"plain": "Tcp", "tls": "Tls", "ws": "Ws", "wss": "Wss", "quic": "Quic"}
-    arm_rec = [(r"let client_server = new_%s_outbound\(&config\.host, config\.port, codec(?:, \w+)*\)\.await\?;" % k, ["OpenTunnel " + v], False) for k, v in tunnel.items()] + [
-        (r"relay_tcp\(local_client, client_server\)\.await", ["CallRelayTcp"], True),
-        (r"let \(res, client_server\) = relay_tcp_then\(local_client, client_server\)\.await;", ["CallRelayTcpThen"], False),
-        (r"if let Some\(client_server\) = client_server \{ (?:let _ = )?client_server\.into_inner\(\)\.close\(\)\.await(?:\?|\.ok\(\))?; \}", ["CloseReunited None"], False),
-        (r"res", ["YieldResult"], True), _EP_LOG]
+    close_call = r"(?P=cs)\.into_inner\(\)\.close\(\)"
+    arm_rec = [(r"let (?P<tunnel>\w+) = new_%s_outbound\(&<<config>>\.host, <<config>>\.port, <<codec>>(?:, \w+)*\)\.await\?;" % k, ["OpenTunnel " + v], False) for k, v in tunnel.items()] + [
+        (r"relay_tcp\(<<local>>, <<tunnel>>\)\.await", ["CallRelayTcp"], True),
+        (r"let \((?P<res>\w+), (?P<back>\w+)\) = relay_tcp_then\(<<local>>, <<tunnel>>\)\.await;", ["CallRelayTcpThen"], False),
+        (r"if let Some\((?P<cs>\w+)\) = <<back>> \{ let _ = time::timeout\(Duration::from_secs\((?P<_secs>\d+)\), %s\)\.await; \}" % close_call,
+         lambda mm: ["CloseReunited (Some %s)" % mm.group("_secs")], False),
+        (r"if let Some\((?P<cs>\w+)\) = <<back>> \{ (?:let _ = )?%s\.await(?:\?|\.ok\(\))?; \}" % close_call, ["CloseReunited None"], False),
+        (r"<<res>>", ["YieldResult"], True)]
     rows = []
     for (pat, expr) in _arms(m.group(1), f + ": try_transfer_tcp"):
         pm = re.fullmatch(r"\((None|_|Some\(\w+\)), (None|_|Some\(\w+\)), (None|_|Some\(\w+\))\)", pat)
         if not pm:
             raise AnchorMissing(f + ": try_transfer_tcp arm pattern %r" % pat)
-        inner = _block_inner(expr)
-        mt = re.search(r"if let Some\(client_server\) = client_server \{ let _ = time::timeout\(Duration::from_secs\((\d+)\), client_server\.into_inner\(\)\.close\(\)\)\.await; \}", inner)
-        rec = arm_rec + ([(re.escape(mt.group(0)), ["CloseReunited (Some %s)" % mt.group(1)], False)] if mt else [])
-        rows.append(("(%s)" % ", ".join({"None": "PNone", "_": "PAny"}.get(g, "PSome") for g in pm.groups()), _flat(inner, rec, f + ": try_transfer_tcp arm " + pat)))
+        rows.append(("(%s)" % ", ".join({"None": "PNone", "_": "PAny"}.get(g, "PSome") for g in pm.groups()),
+                     _ep_flat(_block_inner(expr), arm_rec, dict(env), tt_res, f + ": try_transfer_tcp arm " + pat)))
     facts["client_transport_arms"] = rows
     L.append("Definition client_transport_arms : list ((opat * opat * opat) * list xstep) :=  (* %s try_transfer_tcp: (ssl, ws, quic) arms, first match wins *)\n  [ %s ]." % (
         f, ";\n    ".join("(%s, %s)" % (p, coq_list(st_)) for p, st_ in rows)))
-    _, body = _item(s, r"\nasync fn relay_tcp<", f + ": relay_tcp")
-    emit_steps("client_relay_tcp_steps", _flat(body, [
-        (r"relay_tcp_then\(local_client, client_server\)\.await\.0", ["CallRelayTcpThen", "DiscardReunited"], True),
-    ], f + ": relay_tcp"), f + " relay_tcp: `.0` drops the handed-back outbound")
-    hdr, body = _item(s, r"\nasync fn relay_tcp_then<", f + ": relay_tcp_then")
-    if not re.search(r"\(local_client: I, client_server: O\) -> \(relay::Result, Option<O>\)", hdr):
-        raise AnchorMissing(f + ": signature of relay_tcp_then")
-    emit_steps("client_relay_tcp_then_steps", _flat(body, [
-        (r"let \(c_l, l_c\) = local_client\.split\(\);", ["SplitLocal"], False),
-        (r"let \(mut c_s, mut s_c\) = client_server\.split\(\);", ["SplitTunnel"], False),
-        (r"if let Err\(e\) = c_s\.send\(BytesMut::new\(\)\)\.await \{ return \(relay::Result::Err\([^;{}]*\), None\); \}", ["FirstSend"], False),
-        (r"\(res, c_s\.reunite\(s_c\)\.ok\(\)\)", ["ReturnReunited"], True),
-    ] + pump([(r"l_c", r"&mut c_s", "PumpAB"), (r"\(&mut s_c\)", r"c_l", "PumpBA")]) + join("l_c_s", "s_c_l"),
-        f + ": relay_tcp_then"), f + " relay_tcp_then (the local halves are moved into the pumps, the tunnel halves are borrowed)")
+    hdr, body = _ep_item(s, r"\nasync fn relay_tcp<", f + ": relay_tcp")
+    env = _ep_header(hdr, r"\((?P<local>\w+): I, (?P<tunnel>\w+): O\) -> relay::Result", f + ": relay_tcp owns both ends")
+    emit_steps("client_relay_tcp_steps", _ep_flat(body, [
+        (r"relay_tcp_then\(<<local>>, <<tunnel>>\)\.await\.0", ["CallRelayTcpThen", "DiscardReunited"], True),
+    ], env, ["local", "tunnel"], f + ": relay_tcp"), f + " relay_tcp: `.0` drops the handed-back outbound")
+    hdr, body = _ep_item(s, r"\nasync fn relay_tcp_then<", f + ": relay_tcp_then")
+    env = _ep_header(hdr, r"\((?P<local>\w+): I, (?P<tunnel>\w+): O\) -> \(relay::Result, Option<O>\)", f + ": signature of relay_tcp_then")
+    emit_steps("client_relay_tcp_then_steps", _ep_canon_pumps(_ep_flat(body, [
+        (r"let \((?P<cl>\w+), (?P<lc>\w+)\) = <<local>>\.split\(\);", ["SplitLocal"], False),
+        (r"let \(mut (?P<cs>\w+), mut (?P<sc>\w+)\) = <<tunnel>>\.split\(\);", ["SplitTunnel"], False),
+        (r"if let Err\(\w+\) = <<cs>>\.send\(BytesMut::new\(\)\)\.await \{ return \(relay::Result::Err\([^;{}]*\), None\); \}", ["FirstSend"], False),
+        (r"\(<<res>>, <<cs>>\.reunite\(<<sc>>\)\.ok\(\)\)", ["ReturnReunited"], True),
+    ] + pump([(r"<<lc>>", r"&mut <<cs>>", "PumpAB", "pAB"), (r"\(&mut <<sc>>\)", r"<<cl>>", "PumpBA", "pBA")]) + join(),
+        env, ["local", "tunnel", "cl", "lc", "cs", "sc", "pAB", "pBA"], f + ": relay_tcp_then"), f + ": relay_tcp_then"),
+        f + " relay_tcp_then (the local halves are moved into the pumps, the tunnel halves are borrowed)")
 
     header = ("(* GENERATED by tools/gen_from_source.py from /repo's working tree -- do not edit.\n"
               "   Exit paths: the statements of the per-flow functions, in source order, as abstract steps.\n"
